@@ -10,10 +10,10 @@ namespace KVerif.K
 open KVerif.L KVerif.Gen.Idle
 
 /-- conjuncts about components that are part of the kanata-level model; the others (zippychord,
-dynamic-macro replay, chords v2) belong to components every configuration of this
+chords v2) belong to components every configuration of this
 model leaves absent, where the real conjunct is constantly true -/
 def IdleTag.modelled : IdleTag → Bool
-  | .zippyIdle | .dynMacroReplayNone | .chordsV2Idle => false
+  | .zippyIdle | .chordsV2Idle => false
   | _ => true
 
 /-- `pressed_keys_means_not_idle` -/
@@ -43,7 +43,8 @@ def evalIdleTag (k : KState) : IdleTag → Bool
         | .normalKey .. => pressedKeysMeansNotIdle k
         | _ => false)
   | .sequenceInactive => !k.seq.st.active      -- [seq] `self.sequence_state.is_inactive()`
-  | .zippyIdle | .dynMacroReplayNone | .chordsV2Idle => true
+  | .dynMacroReplayNone => k.dyn.rep.isNone     -- [dyn] `self.dynamic_macro_replay_state.is_none()`
+  | .zippyIdle | .chordsV2Idle => true
 
 /-- what each conjunct of `can_block_update_idle_waiting` says about the model state -/
 def evalBlockTag (k : KState) : BlockTag → Bool
@@ -54,7 +55,7 @@ def evalBlockTag (k : KState) : BlockTag → Bool
        | some (_, t) => decide (t ≥ k.switchMaxKeyTiming)
        | none => true)
   | .cbChordsV2Accepts => true
-  | .cbNotRecordingDynMacro => true   -- dynamic macros are outside this model: nothing is ever recorded
+  | .cbNotRecordingDynMacro => k.dyn.rcd.isNone   -- [dyn] `!k.dynamic_macro_record_state.is_some()`
 
 theorem canBlock_layout (k : KState) (ms : Nat) :
     (canBlockUpdateIdleWaiting k ms).1.layout = k.layout ∧
@@ -68,7 +69,8 @@ theorem canBlock_layout (k : KState) (ms : Nat) :
 /-- the decision in closed form -/
 theorem canBlock_decision (k : KState) (ms : Nat) :
     (canBlockUpdateIdleWaiting k ms).2 =
-      (isIdle k && !pressedKeysMeansNotIdle k && evalBlockTag k .cbPassedMaxSwitchTiming) := by
+      (isIdle k && !pressedKeysMeansNotIdle k && evalBlockTag k .cbPassedMaxSwitchTiming &&
+        evalBlockTag k .cbNotRecordingDynMacro) := by
   unfold canBlockUpdateIdleWaiting evalBlockTag pressedKeysMeansNotIdle
   simp only []
   by_cases h1 : isIdle k = true
